@@ -1,6 +1,9 @@
 //! mqv: runtime-monitoring harness for multiqueue2 (one binary, several engines).
+#![allow(dead_code)]
 mod api;
 mod calloc;
+mod checkers;
+mod conc;
 mod hist;
 mod hooks;
 mod model;
@@ -133,6 +136,39 @@ fn main() {
             } else {
                 seq::run_random(&p, &mut shard);
             }
+            write_out(&args, &shard);
+        }
+        "conc" => {
+            let mut shard = report::Shard::new("mq-conc");
+            let fams: Vec<conc::Family> = args
+                .str("families", "steady")
+                .split(',')
+                .filter_map(conc::Family::parse)
+                .collect();
+            let p = conc::ConcParams {
+                seed: args.u64("seed", 1),
+                runs: args.u64("runs", 100),
+                budget_ms: args.u64("budget-ms", 0),
+                families: fams,
+                opts: conc::GenOpts {
+                    fl: match args.get("fl") {
+                        Some("broadcast") => Some(api::Flavour::Broadcast),
+                        Some("mpmc") => Some(api::Flavour::Mpmc),
+                        _ => None,
+                    },
+                    fut: args.get("fut").map(|v| v == "1"),
+                    small: args.flag("small"),
+                    policy: match args.get("policy") {
+                        Some("none") => Some(hooks::Policy::None),
+                        Some("yield") => Some(hooks::Policy::Yield),
+                        Some("jitter") => Some(hooks::Policy::Jitter),
+                        Some("stall") => Some(hooks::Policy::Stall),
+                        _ => None,
+                    },
+                },
+            };
+            shard.rule = "run = one concurrent scenario (seeded configuration, scripts and stall plan) followed by the quiescent probe, a seeded teardown and the offline checkers; distinct = hash(configuration shape, per-event thread/op/result and number of overlapping operations of other threads); non-trivial = family rule (steady/view: ring wrapped and a send overlapped a receive; wrap-slow-clone: wrapped and another operation completed while a clone/closure was in progress; last-sender: the end was reported and sends overlapped receives; add-stream: the call overlapped a send (shared: and a sibling receive); remove-stream: a send was refused before the removal; handle-churn: a clone/drop overlapped traffic of another thread; quiesce: send/receive overlap; teardown: ring wrapped)".to_string();
+            conc::run_many(&p, &mut shard);
             write_out(&args, &shard);
         }
         _ => {
